@@ -7,4 +7,12 @@ S("c19_scan_count1_stable", "full SCAN iteration with COUNT 1 over an unchanging
 S("c19_scan_count2_stable", "same with COUNT 2", tier="thorough")
 S("c19_scan_count1_add", "full SCAN iteration with COUNT 1 while another key ('d') is added after the first call: the keys that existed throughout are all returned")
 S("c19_scan_count1_delete_kf", "full SCAN iteration with COUNT 1 while an already-returned smaller key ('a') is deleted after the first call: the keys that existed throughout ('b','c') must still all be returned", expect="kf:KF-C19-index-cursor")
-# engine glob vs reference (c19_glob_*): CBMC out of memory / > 15 min even for 2x3 bytes (Vec<char> collection of both strings) - not registered
+# engine glob (MATCH / KEYS) vs the Redis stringmatchlen recurrence.  The UTF-8 decoder of the two
+# `x.chars().collect()` lines does not fit (OOM / > 15 min for 2x3 bytes), so group "engglob" replaces
+# exactly those two lines by an ASCII-exact byte->char copy (a non-ASCII byte fails the harness);
+# the matcher loop itself is the real code.
+for nm, P, T, tier, to in (("c19_glob_p2_t3", 2, 3, "quick", 1800), ("c19_glob_p3_t3", 3, 3, "thorough", 3600)):
+    K(nm, "engglob", ["C19"], tier=tier, timeout=to, desc="engine pattern_matches(pattern, text) == reference glob matcher for every ASCII pattern of %d bytes without '[' and '\\' and every ASCII text of %d bytes (star backtracking, '?', literals)" % (P, T),
+      encodes=["storage::engine::pattern_matches"], bounds="pattern %d symbolic ASCII bytes (no '[', no backslash), text %d symbolic ASCII bytes; unwind %d" % (P, T, 12 if P == 2 else 14),
+      stubs=VEC, assumptions=["the two `.chars().collect()` calls are replaced by verif_common::ascii_chars (exact for ASCII input; non-ASCII input is outside the claim)", "character classes and escapes are outside the claim for the engine matcher (decided for the pub/sub matcher under C14)"],
+      native_replay=False)
